@@ -28,6 +28,7 @@ EXHAUSTIVE_PART = "thorough: all 4^5 behaviour mappings on each of a set of smal
 ASSUMPTIONS = ["the behaviour/default tables re-stated here are the documented ones"]
 MONITORS = ["policy_outcome", "first_offender_named", "unmodified", "second_call_same", "roundtrip_sm_ssc_sm"]
 REQUIRED = ["returned", "InvalidPropertyException", "NotImplementedError", "partial_mapping", "default_with_blanks",
+            "value_differs_from_default_only_by_inner_blanks_or_case",
             "nonempty_default_value", "two_offenders_table_order_differs", "template_with_charts", "chart_offender",
             "copy_anyway_simfile_level", "error_behaviour", "template_empty", "chart_property_after_notes",
             "custom_key_resembling_a_table_entry"]
@@ -73,6 +74,13 @@ def state_value(rng, key, state):
         return d
     if state == "padded":
         return rng.choice([" ", "\n", "  \n"]) + d + rng.choice([" ", "\n", ""])
+    if d and rng.random() < 0.35:
+        # almost the default: blanks INSIDE the value added or removed, another letter case, a longer decimal
+        near = [d.replace("=", " =", 1), d.replace("=", "= ", 1), d.replace(" ", ""), d.replace(" ", "  "), d.replace("=", "=\n", 1),
+                d.lower(), d.upper(), d + "0", d.replace("0.000", "0.0000", 1), d.replace("0.000", "0", 1), d + ",", d[:-1]]
+        near = [x for x in near if x.strip() != d]
+        if near:
+            return rng.choice(near)
     if key == "WARPS":
         return rng.choice(["4.000=1.000", "4.000=1.000", "16.000=0.000", "8.000=0.000,\n24.000=0.000", "0.000=0.500,4.000=2.000"])
     if key == "VERSION":
@@ -318,6 +326,8 @@ def observe(ctx, source, mapping, case):
             ctx.feat("default_with_blanks")
         if kind and v == DEFAULT_VALUE.get(k) and v:
             ctx.feat("nonempty_default_value")
+        if kind and DEFAULT_VALUE.get(k) and v.strip() != DEFAULT_VALUE[k] and "".join(v.split()).lower() == "".join(DEFAULT_VALUE[k].split()).lower():
+            ctx.feat("value_differs_from_default_only_by_inner_blanks_or_case")
         if kind and behaviour(mapping, kind) == COPY:
             ctx.feat("copy_anyway_simfile_level")
     if any(k in ("V", "ION", "VER", "WARP", "AR", "S", "N") for k, _ in source["items"]):
